@@ -67,6 +67,288 @@ PROPS["C13"] = {
     "assumptions": ["sync.Once and atomic int32 behave sequentially within one request (single goroutine)"],
 }
 
+# ---------------------------------------------------------------------------------- C14
+def _c14_nontrivial(sess, real):
+    # at least one request of the session got a status line out through the return handler
+    for l in real[1:]:
+        f = l.split()
+        if len(f) == 4 and f[0] != "0":
+            return True
+    return False
+
+PROPS["C14"] = {
+    "technique": "Lean 4 theorems (the return-value table composed with the response-writer machine, all payloads) + "
+                 "differential correspondence with a real Flame serving handlers of every supported result shape",
+    "level_text": "Every row of C14's table is a Lean theorem over Model/Return (the repaired defaultReturnHandler, finding F14) "
+                  "executed on Model/Writer, for all payloads, statuses 100..999 and GET/HEAD; `zero_writes_nothing`, "
+                  "`written_iff_nonempty`, `fast_eq_reflective`, `custom_handler_replaces` cover the remaining clauses. The model is "
+                  "tied to return_handler.go / context.go run() / teapotInvoker by an exhaustive small-scope and random differential "
+                  "check: real handlers of 31 Go func types at five chain positions, served by a real Flame on every run.",
+    "level_note": "Trusted: Lean kernel; hand-written model tied by differential testing only. `(int, x)` always sends the int "
+                  "status, even when x is nil/empty (chain stops) and panics in net/http when the int is outside 100..999 — "
+                  "stated as theorems, the literal 'zero results write nothing' reading for (0, \"\") is proved false.",
+    "props_modules": ["Flamego.Props.C14"],
+    "suite": "C14",
+    "stats": generic_stats(_c14_nontrivial,
+        "sessions = one Flame (method, chain position, handler func type, optional custom ReturnHandler, optional pre-write) "
+        "serving 1..n requests whose handler returns the listed values; distinct by the op lines; non-trivial = at least one "
+        "request got a status line out through the return handler"),
+    "known_match": no_known,
+    "trusted_base": COMMON_TRUST + [
+        "modelled, not verified: reflect (Kind / IsZero / Elem / Interface().(error) per value are read off the value "
+        "description the generator emits; Value.String() of a non-string kind is the parameter `ph`, computed with reflect by the harness)",
+        "modelled, not verified: net/http rejects status codes outside 100..999 with a panic (httptest.ResponseRecorder does the same); "
+        "the recorder, unlike a real server, treats 1xx as final and does not strip bodies for 204/304 — codes are compared as recorded",
+        "the injector lookup of the ReturnHandler is a parameter (request scope, then app scope) — C04 proves the scope rule"],
+    "assumptions": ["a value's Error() method is deterministic; an Error() that panics is modelled as Act.panic after the 500 status",
+                    "convention: a value whose dynamic type implements error has a kind other than Int/String/byte-slice",
+                    "the wrapped writer accepts every byte (short writes are C13's subject)"],
+}
+
+# ---------------------------------------------------------------------------------- C04
+def _c04_line_equal(real, model):
+    """token by token; a comma-separated field of the model may list alternatives `a|b` per position
+    (Go's map iteration picks among several implementors of an interface): the real value must be one of them"""
+    if real == model:
+        return True
+    rt, mt = real.split(" "), model.split(" ")
+    if len(rt) != len(mt):
+        return False
+    for a, b in zip(rt, mt):
+        if a == b:
+            continue
+        ap, bp = a.split(","), b.split(",")
+        if len(ap) != len(bp):
+            return False
+        for x, y in zip(ap, bp):
+            if x not in y.split("|"):
+                return False
+    return True
+
+def _c04_nontrivial(sess, real):
+    # at least two registrations were made AND a lookup / invocation / Apply delivered a registered value
+    regs = sum(1 for l in sess if l.split(" ")[0] in ("M", "MT", "S", "FM", "FMT")) + sum(l.count(".") // 2 for l in sess if l[:2] in ("H ", "U "))
+    hit = any(r.startswith("val ") or (r.startswith("ran ") and not r.startswith("ran - ")) or
+              (r.startswith("fields ") and any(x not in ("0", "-") for x in r.split(" ")[1].split(","))) for r in real)
+    return regs >= 2 and hit
+
+def _c04_stats(lines, sessions, R, M):
+    st = generic_stats(_c04_nontrivial,
+        "sessions = registrations (Map/MapTo/Set) on 1..3 nested injectors interleaved with Value, Invoke (plain MakeFunc "
+        "function and hand-written FastInvoker of the same signature) and Apply, exhaustive over a 5-registration alphabet per "
+        "scope first, then random; plus sessions on a real Flame (app-scope Map, request-scope Map inside handlers, several "
+        "requests, the built-in auto-wrapped shapes); distinct by op text; non-trivial = at least two registrations AND some "
+        "lookup/invocation/Apply delivered a registered value")(lines, sessions, R, M)
+    st["lines_with_several_admissible_values"] = sum(1 for m in M if "|" in m)
+    st["invocations_ran"] = sum(1 for r in R if r.startswith("ran "))
+    st["invocations_not_found"] = sum(1 for r in R if r.startswith("err "))
+    st["requests_served"] = sum(1 for l in lines if l == "RQ")
+    st["requests_panicked_not_found"] = sum(1 for r in R if r.endswith("resp panic"))
+    st["apply_errors"] = sum(1 for r in R if r.startswith("fields ") and "err=notfound" in r)
+    return st
+
+PROPS["C04"] = {
+    "technique": "Lean 4 theorems over a model of the injector scope chain (all universes, chains, signatures, map-iteration choices) "
+                 "+ differential correspondence with the real inject package and a real Flame",
+    "level_text": "Every clause of C04 is a Lean theorem over Model/Inject for all type universes, scope chains of any length, registration "
+                  "orders, handler signatures, struct layouts and map-iteration choices; the model is tied to inject/inject.go, handler.go, "
+                  "context.go and flame.go by an exhaustive small-scope and random differential check (reflect.MakeFunc handlers, "
+                  "hand-written and built-in FastInvokers, reflect.StructOf structs, real requests through a Flame) on every run.",
+    "level_note": "Trusted: Lean kernel; the model is hand-written and tied by differential testing only; where several implementors of an "
+                  "interface sit in one scope the Go answer depends on map iteration and is compared by membership in the model's set.",
+    "props_modules": ["Flamego.Props.C04"],
+    "suite": "C04",
+    "stats": _c04_stats,
+    "compare": lambda sess, R, M: [i for i in range(len(sess)) if i >= len(R) or i >= len(M) or not _c04_line_equal(R[i], M[i])],
+    "known_match": no_known,
+    "trusted_base": COMMON_TRUST + [
+        "reflect (Type identity as map key, Kind, Implements, Call, MakeFunc, StructOf, CanSet, Tag.Lookup) behaves as documented; the "
+        "universe's isInterface/implements relation is computed by reflect in the harness and sent to the model",
+        "guard: registered values are valid reflect.Values (no Map(nil), no Set(t, reflect.Value{})) and MapTo/Set values are assignable "
+        "to the key type; parent links are acyclic (a cyclic SetParent makes Value recurse forever)",
+        "modelled, not verified: a FastInvoker's own Invoke method is user code; the theorems cover positional wrappers (the built-in "
+        "ContextInvoker, httpHandlerFuncInvoker, teapotInvoker, LoggerInvoker and the harness's generic ones)"],
+    "assumptions": ["Go map iteration may visit the entries of one injector in any order, independently per lookup",
+                    "one request's handlers run sequentially on one goroutine (concurrent requests are C05)"],
+}
+
+# ---------------------------------------------------------------------------------- C16
+def _c16_stats(lines, sessions, R, M):
+    """distinct = (session options, request) pairs; non-trivial = the request got past the method and
+    prefix filters, i.e. the middleware touched the file system (an open happened) or answered."""
+    seen, nt, kinds, outcomes, samples = set(), 0, {}, {}, []
+    clean = 0
+    for (a, b) in sessions:
+        hdr = lines[a]
+        kinds["static"] = kinds.get("static", 0) + 1
+        for i in range(a + 1, b):
+            l = lines[i]
+            if l.startswith("CLEAN ") or l.startswith("JOIN "):
+                clean += 1
+                continue
+            if not l.startswith("REQ "):
+                continue
+            k = hashlib.sha1((hdr + "\n" + l).encode()).hexdigest()
+            if k in seen:
+                continue
+            seen.add(k)
+            o = R[i].split()
+            kind = o[0] if o else "?"
+            outcomes[kind] = outcomes.get(kind, 0) + 1
+            if kind != "silent" or (len(o) > 1 and o[-1] != "opens=none"):
+                nt += 1
+                if len(samples) < 4 and kind in ("serve", "redirect") and nt % 7 == 0:
+                    samples.append({"session": hdr, "op": l, "real": R[i]})
+    return {"distinct_requests": len(seen), "distinct_nontrivial": nt, "outcomes": outcomes,
+            "clean_join_comparisons": clean, "session_kinds": kinds, "samples": samples,
+            "rule": "distinct = (options line, REQ line) pairs; non-trivial = the real middleware answered (serve, redirect, "
+                    "304) or at least opened a name in the file system (so the request passed the method and prefix "
+                    "filters); CLEAN/JOIN lines (path.Clean, path.Join, http.Dir name check vs the Lean functions) are "
+                    "counted separately"}
+
+PROPS["C16"] = {
+    "technique": "Lean 4 theorems over a model of static.go's decision logic and of path.Clean/http.Dir's lexical name mapping "
+                 "(all byte-string paths, all options, all file systems) + differential correspondence with the real middleware "
+                 "on a real temporary directory tree",
+    "level_text": "PARTIAL proof. Proved for all inputs over the model: the middleware stays silent unless the method is GET/HEAD and the path "
+                  "is under the normalised prefix at a segment boundary; every name it opens is one of two names derived from the request; "
+                  "what it serves is the file the file system returned for such a name; path.Clean(\"/\"+name) never contains '..', '.' or "
+                  "an empty component, so the OS name http.Dir opens is lexically inside the directory; a redirect happens only for a "
+                  "directory whose cleaned URL lacks the trailing slash and goes to cleaned path + '/'. The model is tied to static.go, "
+                  "path.Clean, path.Join and http.Dir.Open's name check by differential testing on every run (real files, real Flame).",
+    "level_note": "PARTIAL: containment is delegated by flamego to net/http and the OS. http.Dir.Open, os.Open (symbolic links, mounts), "
+                  "http.ServeContent (range/conditional handling, what bytes are sent) and http.Redirect (rendering of Location) are "
+                  "parameters, not verified; path.Clean/path.Join/the http.Dir name check are modelled in Lean and differentially "
+                  "checked against Go, not proved about Go's source. Trusted: Lean kernel; the hand-written model tied by differential testing only.",
+    "props_modules": ["Flamego.Props.C16"],
+    "suite": "C16",
+    "stats": _c16_stats,
+    "known_match": no_known,
+    "trusted_base": COMMON_TRUST + [
+        "parameters (assumed, not verified): os.Open/Stat resolve the lexical OS name http.Dir builds (no symbolic links, no "
+        "mount tricks inside the served directory); http.ServeContent sends the content of the file handle it is given; "
+        "http.Redirect; filepath.Join(root, rel) is concatenation because the configured directory is a clean path other than '/'",
+        "modelled and differentially checked (not proved against Go's source): path.Clean, path.Join, utf8.ValidString, "
+        "http.Dir.Open's name mapping and its refusal of NUL / invalid UTF-8 (go1.23 filepath.Localize)",
+        "the harness's containment oracle: every 200 body is compared with the on-disk bytes of a regular file inside the "
+        "temporary pub/ directory; files next to pub/ with distinct contents are never accepted",
+    ],
+    "assumptions": [
+        "linux: filepath.Separator is '/', so http.Dir's separator test is vacuous",
+        "the model's fs parameter is instantiated with the table of the temporary tree keyed by cleaned relative path (no symlinks)",
+        "requests carry no Range/If-Modified-Since/If-Match headers; If-None-Match is absent, junk, or exactly one file's ETag",
+        "f.Stat() does not fail after a successful Open",
+    ],
+}
+
+# ---------------------------------------------------------------------------------- C18
+def _c18_stats(lines, sessions, R, M):
+    """distinct operation lines; non-trivial = the real result carries data (not the zero value of its type,
+    not `err`/`nomatch`); plus the measured distribution per operation/accessor and per outcome"""
+    zero = {"-", "0", "0 .", "0 ok", "0 syntax", "0 0", "0 1", "err", "nomatch"}
+    seen, nt, kinds, outcome, samples = set(), 0, {}, {}, []
+    for i, l in enumerate(lines):
+        if l.startswith("NEW ") or l in seen:
+            continue
+        seen.add(l)
+        f = l.split()
+        k = f[0] + (":" + f[1] if f[0] in ("Q", "P") else "")
+        kinds[k] = kinds.get(k, 0) + 1
+        r = R[i] if i < len(R) else ""
+        if f[0] == "Q":
+            o = "default-given" if f[4] != "n" else "no-default"
+            outcome[o] = outcome.get(o, 0) + 1
+        if f[0] == "C":
+            ok = r == f[2]
+            outcome["cookie-roundtrip-exact" if ok else "cookie-roundtrip-other"] = \
+                outcome.get("cookie-roundtrip-exact" if ok else "cookie-roundtrip-other", 0) + 1
+        if r not in zero and r != "panic":
+            nt += 1
+            if len(samples) < 6 and f[0] in ("Q", "C", "K", "P") and len(l) > 24 and i % 7 == 0:
+                samples.append({"op": l, "real": r})
+    return {"distinct_ops": len(seen), "distinct_nontrivial": nt, "op_kinds": kinds, "outcomes": outcome,
+            "rule": "cases = distinct operation lines (one accessor call on one real request, one cookie round trip, or one "
+                    "codec/strconv comparison); non-trivial = the implementation's result is not the zero value of its type "
+                    "(not empty / 0 / false / err / nomatch)",
+            "samples": samples}
+
+
+PROPS["C18"] = {
+    "technique": "Lean 4 theorems (one generic accessor rule instantiated for all 12 accessors; QueryEscape/QueryUnescape and "
+                 "cookie round trip for every byte string through a byte-level model of net/url and net/http's cookie "
+                 "sanitiser/parser) + differential correspondence with the real accessors on real requests",
+    "level_text": "The accessor rule is a Lean theorem per accessor over Model/Access for all query strings, parameter maps, cookie "
+                  "headers, names and defaults; queryUnescape(queryEscape s) = s, cookie-safety of the escaped bytes and the "
+                  "Set-Cookie -> Cookie round trip are theorems for every byte string. The model (incl. strconv.Atoi/ParseInt/"
+                  "ParseBool, strings.TrimSpace, url.ParseQuery, cookie sanitising/parsing) is tied to /repo and the standard "
+                  "library by a differential check through a real flamego instance on every run.",
+    "level_note": "Trusted: Lean kernel; hand-written model tied by differential testing only; strconv.ParseFloat is a parameter "
+                  "(answered by Go at run time, only `ParseFloat(\"\") = 0` is assumed); strconv.IntSize = 64; dispatch of the two "
+                  "harness routes is C01/C02's subject. Three clauses hold only in a weaker form on the unchanged code "
+                  "(see *_full / *_full_false in Props/C18.lean): QueryTrim/QueryUnescape also convert the caller's default; "
+                  "an over-long digit run followed by junk parses to the clamped limit, not 0.",
+    "props_modules": ["Flamego.Props.C18"],
+    "suite": "C18",
+    "stats": _c18_stats,
+    "known_match": no_known,
+    "trusted_base": COMMON_TRUST + [
+        "parameter, not modelled: strconv.ParseFloat(s, 64) (value component as IEEE-754 bits, supplied per run by Go through the "
+        "oracle protocol; the theorems assume only ParseFloat(\"\") = 0)",
+        "modelled and differentially checked on every run, not verified: net/url QueryEscape/QueryUnescape/PathUnescape/parseQuery, "
+        "net/http Cookie.String/sanitizeCookieValue/readCookies/parseCookieValue, strconv.Atoi/ParseInt/ParseBool, strings.TrimSpace",
+        "a client returns exactly the name=value part of the Set-Cookie header in one Cookie header line",
+        "the bind-parameter map is taken as given (what Tree.Match stored: PathUnescape of the captured text, raw on error) — "
+        "that it equals the captured text is property C02"],
+    "assumptions": ["strconv.IntSize = 64 (printed by the harness and compared on every session)",
+                    "strconv.ParseFloat(\"\", 64) returns 0 (monitored: the oracle answer for the empty text is compared)",
+                    "the handler runs on the goroutine of ServeHTTP with the request's own Context (single request at a time)"],
+}
+
+# ---------------------------------------------------------------------------------- C17
+def _c17_nontrivial(sess, real):
+    # a render call with a non-empty body under a status other than 200, or an encoder failure,
+    # or a visibility case in which one request resolves the renderer and another does not
+    for op, out in zip(sess[1:], real[1:]):
+        f, o = op.split(), out.split()
+        if f and f[0] == "R" and len(o) == 5:
+            if o[4] == "enc-error" or (o[3] != "-" and o[0] != "200"):
+                return True
+        if f and f[0] == "V" and "unresolved@" in out and ";" in out:
+            return True
+    return False
+
+PROPS["C17"] = {
+    "technique": "Lean 4 theorems over a model of render.go on top of the C13 writer machine (all statuses, options, payloads, "
+                 "encoders as a parameter) + a minimal scope-chain model for visibility + differential correspondence with the "
+                 "real Renderer middleware; decode-back of JSON/XML bodies checked differentially only",
+    "level_text": "Status, Content-Type table (configured charset, utf-8 default, none for Binary), verbatim Binary/PlainText bodies, "
+                  "'body = the standard encoder's bytes for the configured indentation', 'an earlier status stands', and "
+                  "visibility of Render in the request scope are Lean theorems for all inputs; the model is tied to render.go by "
+                  "an exhaustive small-scope and random differential check through a real Flame instance and an httptest recorder.",
+    "level_note": "PARTIAL proof: that a JSON/XML body decodes back to the given value is a property of encoding/json and "
+                  "encoding/xml (parameters of the model) — it is checked differentially on every run (each generated body is "
+                  "decoded with the standard decoders and compared with the input), not proved. Also trusted: Lean kernel; the "
+                  "hand-written model (tied by differential testing only); httptest.ResponseRecorder as the wrapped writer; "
+                  "status codes 100..999; Before hooks do not touch Content-Type.",
+    "props_modules": ["Flamego.Props.C17"],
+    "suite": "C17",
+    "stats": generic_stats(_c17_nontrivial,
+        "sessions = one Flame instance with Renderer(opts) for a method/charset/indent combination, each op one request "
+        "(render call with status, pre-written state and payload) or one visibility case (two routes, three requests); "
+        "distinct by op text; non-trivial = some render call produced a non-empty body under a status other than 200 or hit "
+        "an encoder error, or a visibility case had both a resolved and an unresolved request"),
+    "known_match": no_known,
+    "trusted_base": COMMON_TRUST + [
+        "parameters, not verified: encoding/json and encoding/xml (their output for a value and indentation arrives as data; "
+        "decode(encode v) = v is monitored on every generated case, never proved); net/http's http.Error (modelled as of go1.23: "
+        "Del Content-Length, Set Content-Type text/plain, Set X-Content-Type-Options, WriteHeader, message line); "
+        "httptest.ResponseRecorder (keeps bodies for every status, snapshots headers at WriteHeader)",
+        "reflect-based injection is reduced to exact-type lookup through request scope then instance scope (the full injector is C04)",
+        "guard: status codes 100..999 (net/http panics on others); Before hooks are observers that leave Content-Type alone"],
+    "assumptions": ["the handler chain of one request runs on one goroutine",
+                    "no other value bound in the scopes implements flamego.Render"],
+}
+
 # ------------------------------------------------------------------- router suites
 import router_props as rp
 
@@ -158,7 +440,7 @@ _router_entry("C12",
     extra_trust=["parameter: strings.Replacer (modelled as leftmost, first-listed-key replacement and differentially checked); "
                  "bind names are brace-free in generated cases because Go's map order makes colliding keys non-deterministic"])
 
-HOOK_COMMITS = ["a5cf397"]
+HOOK_COMMITS = ["a5cf397"]  # /repo commit adding verif_export.go (//go:build verif)
 
 _ALL = ['C01', 'C02', 'C03', 'C04', 'C05', 'C06', 'C07', 'C08', 'C09', 'C10', 'C11', 'C12', 'C13', 'C14', 'C15', 'C16', 'C17', 'C18']
 NOT_APPLICABLE = [
